@@ -17,6 +17,15 @@ every reading — within one UTC day, across midnight / month end / leap day / y
 services keep their own clock: S3 verifies `x-amz-date` against it (15-minute window) next to the full SigV4 check, B2 ages
 tokens (24 h).  The Lean S3 model runs the same history *with the clock readings* (`S3.runT`, `s3_timed_history_refines`).
 
+Location: every history also draws HOW THE REPOSITORY LOCATION IS SPELLED, per adapter (`harness/impl/c13_location.py`) — B2: a generated account
+(bucket name / 24-hex id, further buckets reported before / after ours, master key or key restricted to the bucket) and the connection string
+spelled by bucket NAME or by bucket ID (`-r b2:bucket-name`, `-r b2:bucket-id`; the fake service takes the name only in `/file/<bucket>/…` URLs and
+the id only in API calls, like the real one); S3: generated bucket names, regions, and every shape of an S3-compatible endpoint (host, host:port,
+IP literals, sub-domains; http / https given or defaulted; the fake serves one scheme); local: the spellings of `localfs.SPELLINGS`.  A third of the
+histories is run under a second spelling of the same location as well, `location_sweep` runs one every-kind-of-call history under each spelling
+class (seed-independent), and the Lean B2 model runs at the location (`B2.stepAt`, `b2_location_spelling`; slot fillers and match fields are
+regenerated from b2.py by `tools/sections/13_b2loc.py`).  `location_probes` records what happens outside the documented spellings.
+
 Object-level commands (`objcmd_stream`, `harness/impl/objcmd.py`): `upload_objects` / `download_objects` / `list_objects` / `delete_objects` of a
 real `Repository` (memory backend, real local backend) run in worker processes from a scratch working directory on generated scenarios, against the
 compiled model `store.cmd.run` (`ObjCmd.lean`); oracle = the statements of the object-command theorems on the real results.
@@ -40,6 +49,7 @@ import time
 import types
 
 from ..common import LEAN, WORK, REPO, rng_for
+from ..impl import c13_location as locs
 from ..impl import fake_b2, fake_s3, localfs
 
 # ------------------------------------------------------------------------------------------------ names
@@ -377,6 +387,42 @@ def _patch_sleeps():
     backoff._async.asyncio.sleep = _nosleep
 
 
+def _cheap_backoff_log():
+    """backoff's default handlers format the exception of every retry with `traceback.format_exception_only` whether or not anything is
+    logged; with B2's chained re-authentication errors that is ≈ 8 ms per retry, i.e. more than a second for one call that ends at the
+    watchdog.  Give backoff a one-line formatter (its log text is not an observable of this check)."""
+    try:
+        import backoff._common as bc
+        if getattr(bc.traceback, '_c13_cheap', False):
+            return
+        bc.traceback = types.SimpleNamespace(_c13_cheap=True, format_exception_only=lambda typ, exc=None, *a, **k: ['%s: %s\n' % (getattr(typ, '__name__', typ), exc)])
+    except Exception:  # noqa: BLE001
+        pass
+
+
+def _share_default_tls_context():
+    """Every adapter object builds an `httpx.AsyncClient`, and with it a TLS context (≈ 35 ms: the CA bundle is parsed) — for a transport that
+    is never used here (`install` swaps in the fake service's MockTransport).  Build the default context once and hand it out again; anything
+    but the default arguments goes to httpx as before.  Purely a cost matter: hundreds of adapter objects per run."""
+    try:
+        import httpx._transports.default as d
+        orig = d.create_ssl_context
+        if getattr(orig, '_c13_shared', False):
+            return
+        cache = {}
+
+        def shared(verify=True, cert=None, trust_env=True):
+            if verify is True and cert is None and trust_env is True:
+                if 'ctx' not in cache:
+                    cache['ctx'] = orig(verify=verify, cert=cert, trust_env=trust_env)
+                return cache['ctx']
+            return orig(verify=verify, cert=cert, trust_env=trust_env)
+        shared._c13_shared = True
+        d.create_ssl_context = shared
+    except Exception:  # noqa: BLE001 — another httpx layout: keep its behaviour
+        pass
+
+
 class Watchdog(BaseException):
     pass
 
@@ -462,8 +508,11 @@ async def _one_async(backend, op, count_list_requests):
     raise ValueError(o)
 
 
-async def run_async(backend, ops, count_list_requests, new_op=lambda op: None):
+async def run_async(backend, ops, count_list_requests, new_op=lambda op: None, stop_at_deviation=False):
+    """`stop_at_deviation`: the history ends with the first operation whose return value is not the map's (the states have parted, what
+    follows says nothing more — and on B2 every further failing call costs a full round of retries)"""
     rets = []
+    m = {}
     for op in ops:
         new_op(op)
         try:
@@ -472,6 +521,8 @@ async def run_async(backend, ops, count_list_requests, new_op=lambda op: None):
             rets.append({'error': 'hang'})
         except (Exception, Watchdog, RecursionError) as e:  # noqa: BLE001
             rets.append({'error': classify(e)})
+        if stop_at_deviation and strip_req(rets[-1]) != dict_step(m, op):
+            break
     try:
         await backend.close()
     except Exception:  # noqa: BLE001
@@ -498,12 +549,15 @@ def make_watchdog(limit=60):
 S3_ARGS = dict(key_id='AKIDEXAMPLE', access_key='wJalrXUtnFEMI/K7MDENG+bPxRfiCYEXAMPLEKEY', region='eu-west-1')
 
 
-def real_s3(ops, ps, variant='s3c', clock=None):
+def real_s3(ops, ps, variant='s3c', clock=None, location=None):
     """one adapter object for the whole history.  `clock` = clock spec (see `gen_clock`; the operations then carry `at` / `jit`) or None
-    = the machine's clock and a service that does not look at the time."""
+    = the machine's clock and a service that does not look at the time.  `location` = how the repository is spelled (bucket name, endpoint
+    host, scheme, region: `c13_location.gen_s3_location`; it names the variant too) or None = the fixed location of the earlier runs."""
     from replicat.backends.s3c import S3Compatible
     from replicat.backends.s3 import S3
     hc = HClock(clock) if clock is not None else None
+    if location is not None:
+        variant = location
     with patched_clock(hc):
         rets, info = _real_s3(S3, S3Compatible, ops, ps, variant, hc)
     if hc is not None and hc.reads == 0 and info['requests'] + info['rejected'] > 0:
@@ -515,15 +569,19 @@ def real_s3(ops, ps, variant='s3c', clock=None):
 
 
 def _real_s3(S3, S3Compatible, ops, ps, variant, hc):
-    if variant == 's3':
-        b = S3('bkt', **S3_ARGS)
-        host = 's3.eu-west-1.amazonaws.com'
+    """`variant` = 's3' / 's3c' (the fixed location) or a location dict"""
+    loc = variant if isinstance(variant, dict) else dict(locs.DEFAULT_S3, variant=variant, host='s3.eu-west-1.amazonaws.com' if variant == 's3' else locs.DEFAULT_S3['host'])
+    args = dict(S3_ARGS, region=loc['region'])
+    host = loc['host']
+    if loc['variant'] == 's3':
+        b = S3(loc['bucket'], **args)
+    elif loc['scheme'] == 'https' and not loc.get('explicit_scheme'):
+        b = S3Compatible(loc['bucket'], host=host, **args)                          # the default scheme, not given
     else:
-        host = 'objects.fake-s3.test'
-        b = S3Compatible('bkt', host=host, **S3_ARGS)
+        b = S3Compatible(loc['bucket'], host=host, scheme=loc['scheme'], **args)
     fault, reset = make_watchdog()
-    f = fake_s3.FakeS3('bkt', S3_ARGS['key_id'], S3_ARGS['access_key'], S3_ARGS['region'], host, page_size=ps, fault=fault,
-                       clock=hc.server_now if hc is not None else None, max_skew=S3_SKEW)
+    f = fake_s3.FakeS3(loc['bucket'], args['key_id'], args['access_key'], args['region'], loc.get('service_host', host), page_size=ps, fault=fault,
+                       clock=hc.server_now if hc is not None else None, max_skew=S3_SKEW, scheme=loc['scheme'])
     fake_s3.install(b, f)
     marks = []       # number of accepted requests before every operation
 
@@ -543,24 +601,36 @@ def _real_s3(S3, S3Compatible, ops, ps, variant, hc):
                   'clock_not_intercepted': False}
 
 
-def real_b2(ops, ps, token_uses=None, restricted=False, clock=None):
-    """one adapter object for the whole history; with a clock spec the service ages its tokens (24 h) on the history's true time"""
+def real_b2(ops, ps, token_uses=None, restricted=False, clock=None, location=None, stop_at_deviation=False):
+    """one adapter object for the whole history; with a clock spec the service ages its tokens (24 h) on the history's true time.
+    `location` = the account and how the repository is spelled (`c13_location.gen_b2_location`: bucket name / id, by name or by id, other
+    buckets before / after ours, kind of key) or None = bucket `bkt` spelled by name (the earlier runs)."""
     from replicat.backends.b2 import B2
     hc = HClock(clock) if clock is not None else None
+    loc = location if location is not None else dict(locs.DEFAULT_B2, restricted=restricted)
     with patched_clock(hc):
-        b = B2('bkt', key_id='0012ab34cd56ef', application_key='K001secretsecretsecret')
+        b = B2(locs.b2_ident(loc), key_id='0012ab34cd56ef', application_key='K001secretsecretsecret')
         fault, reset = make_watchdog()
-        f = fake_b2.FakeB2('bkt', '0012ab34cd56ef', 'K001secretsecretsecret', page_size=ps, token_uses=token_uses, restricted=restricted,
-                           other_buckets=[('f00dfeed', 'other-bucket')], fault=fault,
-                           clock=hc.server_now if hc is not None else None, token_ttl=B2_TOKEN_TTL)
+        f = fake_b2.FakeB2(loc['bucket_name'], '0012ab34cd56ef', 'K001secretsecretsecret', bucket_id=loc['bucket_id'], page_size=ps, token_uses=token_uses,
+                           restricted=loc['restricted'], other_buckets=[tuple(x) for x in loc['before']], buckets_after=[tuple(x) for x in loc['after']],
+                           fault=fault, clock=hc.server_now if hc is not None else None, token_ttl=B2_TOKEN_TTL)
         fake_b2.install(b, f)
 
         def new_op(op):
             reset()
             if hc is not None:
                 hc.at(op)
-        rets = loop().run_until_complete(run_async(b, ops, lambda: sum(1 for e in f.log if e['api'] == 'b2_list_file_names'), new_op))
-    return rets, {'state': sorted([k, v.hex()] for k, v in f.live().items()), 'aged_out': f.n_aged_out,
+        rets = loop().run_until_complete(run_async(b, ops, lambda: sum(1 for e in f.log if e['api'] == 'b2_list_file_names'), new_op,
+                                                   stop_at_deviation=stop_at_deviation))
+    addressed = {}       # how the requests named the bucket, as the service saw it
+    for e in f.log:
+        for key, kind in (('bucket', 'download-url'), ('bucket_id', 'api-call')):
+            if key in e:
+                how = 'bucket-name' if e[key] == loc['bucket_name'] else 'bucket-id' if e[key] == loc['bucket_id'] else 'something-else'
+                addressed[kind + ':by-' + how] = addressed.get(kind + ':by-' + how, 0) + 1
+    return rets, {'state': sorted([k, v.hex()] for k, v in f.live().items()), 'aged_out': f.n_aged_out, 'addressed': addressed,
+                  'stopped_at_deviation': len(rets) < len(ops),
+                  'bucket_lookups': sum(1 for e in f.log if e['api'] == 'b2_list_buckets'),
                   'versions': sorted([k, len(v)] for k, v in f.versions.items()), 'requests': len(f.log), 'tokens': f.n_tokens}
 
 
@@ -599,12 +669,8 @@ def root_made_absolute():
 
 def model_root(spelling):
     """the connection string the model sees: same spelling, with a fixed stand-in for the scratch directory"""
-    b = '/w/case'
-    s = {'abs': b + '/repo', 'rel': 'repo', 'rel-trailing-slash': 'repo/', 'rel-double-slash': 'repo//', 'dot-rel': './repo',
-         'updown': 'x/../repo', 'abs-updown': b + '/x/../repo', 'abs-double-lead': '//' + b.lstrip('/') + '/repo',
-         'dot': '.', 'empty': '', 'dot-slash': './'}[spelling]
+    cwd, s = localfs.table('/w/case')[spelling]
     if root_made_absolute() and not s.startswith('/'):
-        cwd = b + '/repo' if spelling in localfs.DOT_SPELLINGS else b
         return cwd + '/' + s
     return s
 
@@ -669,6 +735,15 @@ def shrink_history(ops, rerun, budget=80):
         i = first_diff(exp, got)
         return None if i is None or i >= len(cand) else (i, exp[i], got[i])
     best, res = list(ops), None
+    # what comes after the first deviating operation cannot matter: cut there first (one run instead of one per dropped operation)
+    f = failing(best)
+    budget -= 1
+    if f is not None and f[0] + 1 < len(best):
+        cut = best[:f[0] + 1]
+        f2 = failing(cut)
+        budget -= 1
+        if f2 is not None:
+            best, res = cut, f2
     changed = True
     while changed and budget > 0:
         changed = False
@@ -683,7 +758,7 @@ def shrink_history(ops, rerun, budget=80):
     return (best,) + res if res is not None else None
 
 
-def check_adapter(ctx, label, adapter, ops, real_rets, real_info, model, replay, compare_requests=True, note=lambda i: '', rerun=None):
+def check_adapter(ctx, label, adapter, ops, real_rets, real_info, model, replay, compare_requests=True, note=lambda i: '', rerun=None, shrink_budget=80):
     """oracle (real vs dict) and tie (real vs Lean adapter model) for one adapter on its sub-history; `rerun(ops) -> (rets, info)` lets a
     failing history be minimised (once per signature)"""
     out = ctx.out
@@ -699,7 +774,7 @@ def check_adapter(ctx, label, adapter, ops, real_rets, real_info, model, replay,
         extra = {}
         if rerun is not None and sig not in ctx.shrunk:
             ctx.shrunk.add(sig)
-            sh = shrink_history(ops, rerun)
+            sh = shrink_history(ops, rerun, shrink_budget)
             if sh is not None:
                 extra = {'minimised': {'ops': sh[0], 'failing_index': sh[1], 'expected': sh[2], 'observed': sh[3],
                                        'note': 'same clock schedule and service configuration; replay with these ops in place of "ops"'}}
@@ -717,6 +792,9 @@ def check_adapter(ctx, label, adapter, ops, real_rets, real_info, model, replay,
             out.disagreement(f'driver error on {adapter} history', dict(replay, adapter=adapter, ops=ops, reply=model))
             return ok
         mr = model['rets']
+        stopped = bool(real_info.get('stopped_at_deviation'))
+        if stopped:          # the real history ended with its first deviation from the map: compare the operations that were made
+            mr = mr[:len(real_rets)]
         cmp_real = real_rets if compare_requests else got
         cmp_model = mr if compare_requests else [strip_req(r) for r in mr]
         j = first_diff(cmp_model, cmp_real)
@@ -726,6 +804,8 @@ def check_adapter(ctx, label, adapter, ops, real_rets, real_info, model, replay,
             out.disagreement(f'{adapter}: model and implementation differ at operation #{j}',
                              dict(replay, adapter=adapter, ops=ops, index=j, op=ops[j] if j < len(ops) else None,
                                   model=cmp_model[j] if j < len(cmp_model) else None, impl=cmp_real[j] if j < len(cmp_real) else None))
+        if stopped:
+            return ok
         if model['state'] != real_info['state']:
             agreed = False
             out.disagreement(f'{adapter}: final state differs between model and implementation',
@@ -772,9 +852,37 @@ def quote_via_plus():
     return gen_flag('s3QueryQuoteVia', 'quote_plus') == 'quote_plus'
 
 
+def b2_rerun(run):
+    """for the minimiser: a candidate history that downloads a name that is not live is not run (D9: it would not come back) and counts as
+    not failing, so a minimised B2 history never shows D9 instead of what was found"""
+    def rerun(ops):
+        live = set()
+        for o in ops:
+            if o['op'] in ('upload', 'upload_stream'):
+                live.add(o['name'])
+            elif o['op'] == 'delete':
+                live.discard(o['name'])
+            elif o['op'] in ('download', 'download_stream') and o['name'] not in live:
+                m = {}
+                return [dict_step(m, x) for x in ops], {}
+        return run(ops)
+    return rerun
+
+
+def count_b2_location(out, loc, info):
+    """input-distribution counters of the location dimension (B2), the addressing from what the service saw"""
+    for lb in locs.b2_label(loc):
+        out.count('b2-location:' + lb)
+    for k, n in info['addressed'].items():
+        out.count('b2:' + k, n)
+    if info['bucket_lookups']:
+        out.count('b2:bucket-looked-up-by-listing', info['bucket_lookups'])
+
+
 def main_histories(ctx, r, n_hist, n_big):
     out = ctx.out
     space_breaks_s3_list = quote_via_plus()
+    rl = rng_for(out.seed, 'C13-locations')       # its own stream: the histories of a seed are what they were before locations were generated
     for h in range(n_hist):
         big = h < n_big
         universe = gen_universe(r, lambda s: True)
@@ -788,9 +896,14 @@ def main_histories(ctx, r, n_hist, n_big):
         spelling = r.choice([s for s in localfs.SPELLINGS if s not in localfs.DOT_SPELLINGS]) if r.random() < 0.8 else r.choice(localfs.DOT_SPELLINGS)
         token_uses = r.choice([None, None, 3, 7, 20])
         s3_variant = r.choice(['s3c', 's3c', 's3'])
+        # how the repository location is spelled, per adapter (local: `spelling` above)
+        b2_loc = locs.gen_b2_location(rl)
+        s3_loc = locs.gen_s3_location(rl, variant=s3_variant)
         case = {'kind': 'history', 'universe': universe, 'n_ops': len(ops), 'page_size': ps, 'root_spelling': spelling, 'b2_token_uses': token_uses,
-                's3_variant': s3_variant, 'clock': clock, 'ops': [dict(o, data='<%d bytes>' % (len(o['data']) // 2)) if 'data' in o else o for o in ops][:30]}
-        replay = {'kind': 'history', 'page_size': ps, 'root_spelling': spelling, 'b2_token_uses': token_uses, 's3_variant': s3_variant, 'clock': clock}
+                's3_variant': s3_variant, 'clock': clock, 'ops': [dict(o, data='<%d bytes>' % (len(o['data']) // 2)) if 'data' in o else o for o in ops][:30],
+                'b2_location': {k: b2_loc[k] for k in ('by', 'restricted', 'name_class')}, 's3_location': {k: s3_loc[k] for k in ('bucket_class', 'host_class', 'scheme')}}
+        replay = {'kind': 'history', 'page_size': ps, 'root_spelling': spelling, 'b2_token_uses': token_uses, 's3_variant': s3_variant, 'clock': clock,
+                  'b2_location': b2_loc, 's3_location': s3_loc}
         # per adapter: the sub-history inside the region its theorems cover
         def sub(name_ok, prefix_ok):
             return [o for o in ops if (name_ok(o['name']) if 'name' in o else prefix_ok(o['prefix']))]
@@ -835,7 +948,9 @@ def main_histories(ctx, r, n_hist, n_big):
             if 'error' in spec or [strip_req(x) for x in spec['rets']] != exp or spec['state'] != sorted([k, v] for k, v in m.items()):
                 out.disagreement('Lean specification (MapStore) differs from the Python dict model', dict(replay, ops=ops, reply=short(spec, 2000)))
         # S3
-        rets, info = real_s3(ops_s3, ps, s3_variant, clock)
+        rets, info = real_s3(ops_s3, ps, s3_variant, clock, location=s3_loc)
+        for lb in locs.s3_label(s3_loc):
+            out.count('s3-location:' + lb)
         if info['sig_failures']:
             out.count('s3:signature-rejected', len(info['sig_failures']))
         if info['time_failures']:
@@ -845,10 +960,27 @@ def main_histories(ctx, r, n_hist, n_big):
         for x in rets:
             if 'requests' in x:
                 out.count('s3:list-pages:' + ('1' if x['requests'] == 1 else '2' if x['requests'] == 2 else '3' if x['requests'] == 3 else '4+'))
-        check_adapter(ctx, 'S3', 's3', ops_s3, rets, info, ask_s3(ctx.drv, ops_s3, ps, info), replay, note=lambda i: describe_time(ops_s3, i, info, clock),
-                      rerun=lambda o: real_s3(o, ps, s3_variant, clock))
+        s3_label = 'S3 (%s://%s, bucket %r)' % (s3_loc['scheme'], s3_loc['host'], s3_loc['bucket'])
+        s3_fine = check_adapter(ctx, s3_label, 's3', ops_s3, rets, info, ask_s3(ctx.drv, ops_s3, ps, info), replay, note=lambda i: describe_time(ops_s3, i, info, clock),
+                              rerun=lambda o: real_s3(o, ps, s3_variant, clock, location=s3_loc))
+        # location independence, directly: the same S3 sub-history against another bucket / endpoint / scheme returns the same values
+        if h % 3 == 2:
+            loc2 = locs.s3_other_spelling(rl, s3_loc)
+            rets2, info2 = real_s3(ops_s3, ps, s3_variant, clock, location=loc2)
+            out.evaluations += 1
+            out.count('s3-location:second-spelling-of-the-same-history')
+            for lb in locs.s3_label(loc2):
+                out.count('s3-location:' + lb)
+            ok2 = check_adapter(ctx, 'S3 (%s://%s, bucket %r)' % (loc2['scheme'], loc2['host'], loc2['bucket']), 's3', ops_s3, rets2, info2,
+                                ask_s3(ctx.drv, ops_s3, ps, info2), dict(replay, s3_location=loc2), note=lambda i: describe_time(ops_s3, i, info2, clock),
+                                rerun=lambda o: real_s3(o, ps, s3_variant, clock, location=loc2))
+            if s3_fine and ok2 and ([strip_req(x) for x in rets2] != [strip_req(x) for x in rets] or info2['state'] != info['state']):
+                out.violation('s3:location-spelling-dependence', f'the same history returns different values at {s3_label} and at {loc2["scheme"]}://{loc2["host"]}, bucket {loc2["bucket"]!r}',
+                              dict(replay, adapter='s3', ops=ops_s3, s3_location_b=loc2))
         # B2
-        rets, info = real_b2(ops_b2, ps, token_uses, restricted=r.random() < 0.3, clock=clock)
+        b2_loc['restricted'] = r.random() < 0.3
+        rets, info = real_b2(ops_b2, ps, token_uses, clock=clock, location=b2_loc, stop_at_deviation=True)
+        count_b2_location(out, b2_loc, info)
         out.count('b2:requests', info['requests'])
         out.count('b2:authorizations', info['tokens'])
         if info['aged_out']:
@@ -858,8 +990,25 @@ def main_histories(ctx, r, n_hist, n_big):
             if 'requests' in x:
                 out.count('b2:list-pages:' + ('1' if x['requests'] == 1 else '2' if x['requests'] == 2 else '3' if x['requests'] == 3 else '4+'))
         # with expiring tokens a list request may be repeated after re-authentication: compare page counts only without expiry
-        check_adapter(ctx, 'B2', 'b2', ops_b2, rets, info, ask_history(ctx.drv, 'b2', ops_b2, ps=ps), replay,
-                      compare_requests=token_uses is None and not info['aged_out'])
+        b2_label = 'B2 (-r b2:%s = the bucket\'s %s; %s key)' % (locs.b2_ident(b2_loc), b2_loc['by'], 'restricted' if b2_loc['restricted'] else 'master')
+        b2_fine = check_adapter(ctx, b2_label, 'b2', ops_b2, rets, info, ask_history(ctx.drv, 'b2', ops_b2, ps=ps, loc=locs.b2_model_loc(b2_loc)), replay,
+                              compare_requests=token_uses is None and not info['aged_out'],
+                              rerun=b2_rerun(lambda o: real_b2(o, ps, token_uses, clock=clock, location=b2_loc, stop_at_deviation=True)), shrink_budget=30)
+        # location independence, directly: the other documented spelling of the same bucket returns the same values
+        if h % 3 == 1:
+            loc2 = locs.b2_other_spelling(rl, b2_loc)
+            rets2, info2 = real_b2(ops_b2, ps, token_uses, clock=clock, location=loc2, stop_at_deviation=True)
+            out.evaluations += 1
+            out.count('b2-location:second-spelling-of-the-same-history')
+            count_b2_location(out, loc2, info2)
+            ok2 = check_adapter(ctx, 'B2 (-r b2:%s = the bucket\'s %s; %s key)' % (locs.b2_ident(loc2), loc2['by'], 'restricted' if loc2['restricted'] else 'master'),
+                                'b2', ops_b2, rets2, info2, ask_history(ctx.drv, 'b2', ops_b2, ps=ps, loc=locs.b2_model_loc(loc2)), dict(replay, b2_location=loc2),
+                                compare_requests=token_uses is None and not info2['aged_out'],
+                                rerun=b2_rerun(lambda o: real_b2(o, ps, token_uses, clock=clock, location=loc2, stop_at_deviation=True)), shrink_budget=30)
+            if b2_fine and ok2 and ([strip_req(x) for x in rets2] != [strip_req(x) for x in rets] or info2['state'] != info['state']):
+                out.violation('b2:location-spelling-dependence', f'the same history returns different values with the bucket spelled by {b2_loc["by"]} '
+                              f'(-r b2:{locs.b2_ident(b2_loc)}) and by {loc2["by"]} (-r b2:{locs.b2_ident(loc2)})',
+                              dict(replay, adapter='b2', ops=ops_b2, b2_location_b=loc2))
         # local
         rets, info = real_local(ops_local, spelling, ctx.newdir())
         ok = check_adapter(ctx, 'local (%s)' % spelling, 'local', ops_local, rets, info,
@@ -948,6 +1097,104 @@ def clock_skew_ties(ctx, r, n):
                                  dict(replay, adapter='s3', ops=ops, model=short(model, 1500), impl=short(rets, 1500)))
             else:
                 out.traces_validated += 1
+
+
+# ------------------------------------------------------------------------------------------------ every spelling of the repository location, systematically
+def location_sweep(ctx, r, reps):
+    """Seed-independent part of the location dimension.  One history that makes every kind of call (`c13_location.full_history`) under
+    * B2: the bucket spelled by NAME and by ID × master key / key restricted to the bucket × our bucket reported as the only one / first / in
+      the middle / last, the bucket-name classes taken in turn;
+    * S3-compatible: every shape of the endpoint (`S3_HOST_CLASSES`) × https (given or left to the default) / http, the bucket-name classes in
+      turn; S3 proper in two regions;
+    * local: every spelling of `localfs.SPELLINGS`.
+    Oracle (the map) and tie (B2: `B2.stepAt` at that location) as for the main histories."""
+    out = ctx.out
+    n = 0
+    for k in range(reps):
+        for by in ('name', 'id'):
+            for restricted in (False, True):
+                for pos in ('only', 'first', 'middle', 'last'):
+                    n += 1
+                    loc = locs.gen_b2_location(r, by=by, restricted=restricted, position=pos, name_class=locs.B2_NAME_CLASSES[n % len(locs.B2_NAME_CLASSES)])
+                    ops, ps = locs.full_history(r), [1, 2, 1000][n % 3]
+                    rets, info = real_b2(ops, ps, location=loc, stop_at_deviation=True)
+                    out.evaluations += 1
+                    out.count('location-sweep:b2:by-%s:%s-key:listed-%s' % (by, 'restricted' if restricted else 'master', pos))
+                    count_b2_location(out, loc, info)
+                    replay = {'kind': 'history', 'page_size': ps, 'b2_location': loc}
+                    check_adapter(ctx, 'B2 (-r b2:%s = the bucket\'s %s; %s key; listed %s)' % (locs.b2_ident(loc), by, 'restricted' if restricted else 'master', pos),
+                                  'b2', ops, rets, info, ask_history(ctx.drv, 'b2', ops, ps=ps, loc=locs.b2_model_loc(loc)), replay,
+                                  rerun=b2_rerun(lambda o: real_b2(o, ps, location=loc, stop_at_deviation=True)), shrink_budget=30)
+        s3_locs = [locs.gen_s3_location(r, variant='s3c', host_class=hc, scheme=sc, bucket_class=locs.S3_BUCKET_CLASSES[(i + k) % len(locs.S3_BUCKET_CLASSES)])
+                   for i, (hc, sc) in enumerate((hc, sc) for hc in locs.S3_HOST_CLASSES for sc in ('https', 'http'))]
+        s3_locs += [locs.gen_s3_location(r, variant='s3', bucket_class=bc) for bc in ('dotted', 'max-length')]
+        for i, loc in enumerate(s3_locs):
+            if loc['variant'] == 's3c' and loc['scheme'] == 'https':
+                loc['explicit_scheme'] = (i // 2 + k) % 2 == 0
+            ops, ps = locs.full_history(r), [1, 2, 1000][i % 3]
+            rets, info = real_s3(ops, ps, location=loc)
+            out.evaluations += 1
+            out.count('location-sweep:s3:%s:%s:%s' % (loc['variant'], loc['host_class'], loc['scheme'] + ('' if loc.get('explicit_scheme', True) else '(default)')))
+            for lb in locs.s3_label(loc):
+                out.count('s3-location:' + lb)
+            replay = {'kind': 'history', 'page_size': ps, 's3_location': loc}
+            check_adapter(ctx, 'S3 (%s://%s, bucket %r)' % (loc['scheme'], loc['host'], loc['bucket']), 's3', ops, rets, info, ask_s3(ctx.drv, ops, ps, info), replay,
+                          rerun=lambda o: real_s3(o, ps, location=loc))
+        for sp in localfs.SPELLINGS:
+            dot_root = sp in localfs.DOT_SPELLINGS and not root_made_absolute()
+            ops = [o for o in locs.full_history(r) if not (dot_root and '/' in o.get('prefix', ''))]
+            rets, info = real_local(ops, sp, ctx.newdir())
+            out.evaluations += 1
+            out.count('location-sweep:local:' + sp)
+            check_adapter(ctx, 'local (%s)' % sp, 'local', ops, rets, info, ask_history(ctx.drv, 'local', ops, root=model_root(sp)),
+                          {'kind': 'history', 'root_spelling': sp, 'root': info['root']})
+
+
+def location_probes(ctx, r):
+    """Locations OUTSIDE what the README documents or the theorems cover, run on the real code and recorded as observations (no oracle, nothing
+    reported): a B2 connection string that also names another bucket (`b2_ambiguous_location_witness`: compared with the model), one that names no
+    bucket, and S3-compatible `--host` values that differ from the `Host` header httpx sends (the scheme's default port written out, upper case)."""
+    out = ctx.out
+    obs = {}
+    own_id = locs._word(r, 24, locs.HEX)
+    ops = [{'op': 'exists', 'name': 'a/b'}]
+    # the connection string is our bucket's id AND the name of a bucket reported before ours
+    loc = {'by': 'id', 'bucket_name': 'my-backups', 'bucket_id': own_id, 'before': [[locs._word(r, 24, locs.HEX), own_id]], 'after': [], 'restricted': False,
+           'name_class': 'probe'}
+    for order in ('other-first', 'ours-first'):
+        if order == 'ours-first':
+            loc = dict(loc, before=[], after=loc['before'])
+        rets, info = real_b2(ops, 2, location=loc)
+        out.evaluations += 1
+        out.count('location-probe:b2-id-is-also-another-buckets-name:' + order)
+        obs['b2: -r b2:<id> where another bucket is NAMED like that id, ' + order] = {'exists(name)': rets[0], 'download URLs addressed': info['addressed']}
+        if ctx.drv is not None:
+            m = ask_history(ctx.drv, 'b2', ops, ps=2, loc=locs.b2_model_loc(loc))
+            if 'error' in m or [strip_req(x) for x in m['rets']] != [strip_req(x) for x in rets]:
+                out.disagreement('b2: ambiguous location — model and implementation differ', {'kind': 'location-probe', 'b2_location': loc, 'model': m, 'impl': rets})
+            else:
+                out.traces_validated += 1
+    # the connection string names no bucket of the account
+    loc = {'by': 'name', 'bucket_name': 'no-such-bucket', 'bucket_id': own_id, 'before': [], 'after': [], 'restricted': False, 'name_class': 'probe'}
+    from replicat.backends.b2 import B2
+    b = B2('no-such-bucket', key_id='0012ab34cd56ef', application_key='K001secretsecretsecret')
+    f = fake_b2.FakeB2('my-backups', '0012ab34cd56ef', 'K001secretsecretsecret', bucket_id=own_id, fault=make_watchdog()[0])
+    fake_b2.install(b, f)
+    rets = loop().run_until_complete(run_async(b, [{'op': 'upload', 'name': 'a', 'data': '01'}, {'op': 'exists', 'name': 'a'}], lambda: 0))
+    out.evaluations += 1
+    out.count('location-probe:b2-names-no-bucket')
+    obs['b2: connection string names no bucket of the account'] = {'returns': rets, 'objects stored': len(f.live())}
+    # S3-compatible: `--host` as the user may write it vs the Host header httpx sends (the service verifies the signature over the header it received)
+    for label, host, scheme, sent in (('default-port-written-out', 'objects.fake-s3.test:443', 'https', 'objects.fake-s3.test'),
+                                      ('default-port-written-out', 'objects.fake-s3.test:80', 'http', 'objects.fake-s3.test'),
+                                      ('upper-case', 'Objects.Fake-S3.test', 'https', 'objects.fake-s3.test')):
+        loc = dict(locs.DEFAULT_S3, host=host, scheme=scheme, explicit_scheme=True, service_host=sent)
+        rets, info = real_s3([{'op': 'upload', 'name': 'a', 'data': '01'}, {'op': 'exists', 'name': 'a'}], 2, location=loc)
+        out.evaluations += 1
+        out.count('location-probe:s3c-host-' + label)
+        obs[f's3c: --host {host} --scheme {scheme} (Host header sent: {sent})'] = {
+            'returns': rets, 'service said': (info['sig_failures'] or [{}])[0].get('why', '').split(';')[0].split('\n')[0]}
+    out.extra['location_observations_outside_the_theorems'] = obs
 
 
 # ------------------------------------------------------------------------------------------------ frontier probes
@@ -1387,11 +1634,15 @@ def objcmd_stream(ctx, r, n):
 # ------------------------------------------------------------------------------------------------ entry points
 def run(out, drv, info):
     _patch_sleeps()
+    _share_default_tls_context()
+    _cheap_backoff_log()
     quick = out.tier == 'quick'
     ctx = Ctx(out, drv)
     out.rule = ('history = random operation sequence (upload, upload_stream, delete, exists, download, download_stream, list) over a generated name universe in which no name is '
                 'a directory prefix of another (segments from printable ASCII, tricky literals and non-ASCII), run on ONE long-lived object of each of the three real adapters '
-                '(page size 1/2/3/1000, every root spelling, B2 token expiry by use count and by age) under a generated clock schedule (same day / across midnight, month end, '
+                '(page size 1/2/3/1000, B2 token expiry by use count and by age; the repository location spelled per adapter — local: 18 spellings of the path, B2: generated account, '
+                'bucket by name or by id, master / restricted key, our bucket listed first / middle / last among decoys, S3: bucket-name classes, endpoint host shapes, http / https, regions — '
+                'and for a third of the histories under a second spelling too) under a generated clock schedule (same day / across midnight, month end, '
                 'leap day, year end at a chosen operation / inside one call / hours and days apart / client clock off and jittering; the fake S3 checks x-amz-date against its own '
                 'clock) and on the Lean models (S3: with the clock readings); non-trivial = ≥ 6 operations, ≥ 2 distinct uploaded names, ≥ 1 listing and ≥ 1 delete; distinct = hash of '
                 '(universe, operations, page size, spelling)'
@@ -1401,6 +1652,9 @@ def run(out, drv, info):
                 'non-trivial = ≥ 2 command kinds, a skip_existing flag and at least one transfer or deletion')
     out.assumptions = ['the fake S3 / B2 services (harness/impl/fake_s3.py, fake_b2.py) follow the published protocols; server-side atomicity of PUT / upload is assumed',
                        'the operating system resolves every spelling of the repository location to the same directory; no symbolic links inside the repository',
+                       'B2 location: the connection string is the id or the name of our bucket and of no other bucket of the account (bucket names may look like ids — Lean witness '
+                       '`b2_ambiguous_location_witness`, probe); the other buckets of the account are empty; S3-compatible `--host` is written the way httpx sends the Host header '
+                       '(lower case, no default port — otherwise the signed host differs from the sent one: recorded as an observation, `location_observations_outside_the_theorems`)',
                        'httpx, pathlib, os.path, xml.etree behave as modelled (validated by the differential runs only)',
                        'object names: non-empty segments, none equal to "." or ".."; local: no name ends in ".tmp" and no name is a directory prefix of another; B2: none of ? # % + \\ in names',
                        'B2 download of a name that is not live is excluded (unbounded re-authentication recursion, D9 / property C12)',
@@ -1416,6 +1670,8 @@ def run(out, drv, info):
         main_histories(ctx, r, 220 if quick else 3000, 4 if quick else 40)
         clock_sweep(ctx, rng_for(out.seed, 'C13-clock-sweep'), 2 if quick else 20)
         clock_skew_ties(ctx, rng_for(out.seed, 'C13-clock-skew'), 24 if quick else 400)
+        location_sweep(ctx, rng_for(out.seed, 'C13-location-sweep'), 3 if quick else 30)
+        location_probes(ctx, rng_for(out.seed, 'C13-location-probes'))
         frontier_probes(ctx, rng_for(out.seed, 'C13-probes'), 3 if quick else 12)
         atomic_upload_observations(ctx, rng_for(out.seed, 'C13-atomic'), 60 if quick else 1500)
         loop_ties(ctx, rng_for(out.seed, 'C13-loops'), 150 if quick else 2500)
@@ -1431,6 +1687,7 @@ def run(out, drv, info):
 
 def replay(path, drv):
     _patch_sleeps()
+    _cheap_backoff_log()
     d = json.load(open(path))
     rp = d.get('replay', d)
     kind = rp.get('kind')
@@ -1439,11 +1696,23 @@ def replay(path, drv):
         if kind in ('history', 'probe'):
             adapter = rp['adapter']
             rc = 0
-            for title, ops in [('history', rp['ops'])] + ([('minimised history', rp['minimised']['ops'])] if 'minimised' in rp else []):
+            runs = [('history', rp['ops'], rp)] + ([('minimised history', rp['minimised']['ops'], rp)] if 'minimised' in rp else [])
+            for key in ('b2_location', 's3_location'):       # a finding about two spellings of one location: the history under the second one as well
+                if key + '_b' in rp:
+                    runs.append(('history under the second spelling of the location', rp['ops'], dict(rp, **{key: rp[key + '_b']})))
+            for title, ops, rp in runs:
                 if adapter == 's3':
-                    rets, _ = real_s3(ops, rp.get('page_size', rp.get('ps', 2)), rp.get('s3_variant', 's3c'), rp.get('clock'))
+                    if rp.get('s3_location') is not None:
+                        lc = rp['s3_location']
+                        print(f'replay: S3 location {lc["scheme"]}://{lc["host"]}, bucket {lc["bucket"]!r}, region {lc["region"]}')
+                    rets, _ = real_s3(ops, rp.get('page_size', rp.get('ps', 2)), rp.get('s3_variant', 's3c'), rp.get('clock'), location=rp.get('s3_location'))
                 elif adapter == 'b2':
-                    rets, _ = real_b2(ops, rp.get('page_size', rp.get('ps', 2)), rp.get('b2_token_uses'), clock=rp.get('clock'))
+                    if rp.get('b2_location') is not None:
+                        lc = rp['b2_location']
+                        print(f'replay: B2 location -r b2:{locs.b2_ident(lc)} (the bucket\'s {lc["by"]}; bucket {lc["bucket_name"]!r}, id {lc["bucket_id"]}, '
+                              f'{"restricted" if lc["restricted"] else "master"} key, {len(lc["before"])} bucket(s) listed before and {len(lc["after"])} after it)')
+                    rets, _ = real_b2(ops, rp.get('page_size', rp.get('ps', 2)), rp.get('b2_token_uses'), clock=rp.get('clock'), location=rp.get('b2_location'),
+                                      stop_at_deviation=True)
                 else:
                     rets, _ = real_local(ops, rp['root_spelling'], scratch)
                 m = {}
